@@ -975,3 +975,25 @@ func c11SharedEventsImmutable(c *Ctx) {
 		r.MissingInstance("C11.8", "<functions>", fmt.Sprintf("only %d functions", nFns))
 	}
 }
+
+// ---- C11.9: the state store's snapshot handlers against their subjects' cache keys
+func c11SubjectKeys(c *Ctx) {
+	p, r := c.P, c.R
+	var handlers []*ssa.Function
+	for _, f := range p.SrcFuncs(statePkg) {
+		// every function of the package except the subjects' own String methods (the key itself)
+		if f.Name() == "String" {
+			continue
+		}
+		handlers = append(handlers, f)
+	}
+	n := subjectKeyCoverage(c, "C11.9", statePkg, "state", handlers, func(fv *types.Var) string {
+		if strings.HasSuffix(core.ShortType(fv.Type()), "acl.EnterpriseMeta") {
+			return "enterprise metadata: a single fixed value in this (community) build, so it cannot distinguish two requests"
+		}
+		return ""
+	})
+	if n < 5 {
+		r.MissingInstance("C11.9", "<subject fields>", fmt.Sprintf("only %d subject fields read by snapshot handlers (%d handlers)", n, len(handlers)))
+	}
+}
